@@ -378,6 +378,11 @@ def write_syscall_probe(ctx, prop):
                 tid = json.loads(out)['id']
                 for k in range(6):
                     st.run(['new', 'task'], stdin=json.dumps({'title': 'd%d' % k, 'state': 'done'}).encode())
+                # ... and an epic whose children are all finished, so that prune removes tasks AND an epic
+                rc, out, _ = st.run(['--json', 'new', 'epic'], stdin=b'{"title":"finished epic"}')
+                eid = json.loads(out)['id']
+                for k in range(2):
+                    st.run(['new', 'task'], stdin=json.dumps({'title': 'child%d' % k, 'state': 'canceled' if k else 'done', 'epic': eid}).encode())
                 cmds = [('new+claim', ['--agent', 'a', '--json', 'new', 'task'], json.dumps({'title': 't', 'body': body, 'claim': 'a', 'state': 'doing'}).encode()),
                         ('set title+body+state', ['--agent', 'a', 'set', tid], json.dumps({'title': 'nt', 'body': body, 'state': 'blocked'}).encode()),
                         ('claim', ['--agent', 'a', 'claim'], None),
@@ -525,6 +530,7 @@ def init_race(ctx):
 
 
 def check_C02(ctx):
+    legacy_store_races(ctx)
     n = 90 if ctx.quick() else 1200
     sched_check(ctx, n, {'nwriters': 4, 'nreaders': 1}, mon_sched_common)
     init_race(ctx)
@@ -565,6 +571,7 @@ def check_C13(ctx):
 
 
 def check_C05(ctx):
+    legacy_untitled_twins(ctx)
     tags = {'Events', 'Exit'} | ALL_OBS
     n, steps = sizes(ctx, (40, 30), (400, 45))
     prof = {'weights': {'compact': 14, 'new': 22, 'set': 34, 'claim': 10, 'seq': 10, 'prune': 7, 'plan': 5, 'seqrm': 2}}
@@ -664,6 +671,49 @@ def compact_twin_runs(ctx):
                                    {'kind': 'twin', 'case': b}))
     finally:
         rpc.close()
+
+
+def legacy_untitled_twins(ctx):
+    """Legacy logs (items created without a title: the title is derived from the body on every load):
+    later commands on a compacted copy vs on the untouched copy."""
+    import driver
+    shown = {}
+    n = 0
+    bodies = ['# Old heading\ndetails\nmore', 'Title line\nDetails line', '\n\n', 'only line']
+    later = [('set body', ['set', 'LLLLLL'], b'{"body":"New text"}'), ('set title', ['set', 'LLLLLL'], b'{"title":"Given"}'),
+             ('claim', ['--agent', 'a', 'claim', 'LLLLLL'], None), ('set state', ['set', 'LLLLLL'], b'{"state":"done"}')]
+    for body in bodies:
+        for lname, largs, lstdin in later:
+            res = []
+            for compact_first in (False, True):
+                st = Store()
+                try:
+                    ev = {'type': 'new_task', 'ts': '2024-01-01T00:00:00Z', 'data': {'id': 'LLLLLL', 'uuid': 'u1', 'epic_id': '', 'state': 'todo',
+                                                                                    'title': '', 'body': body, 'created_at': '2024-01-01T00:00:00Z'}}
+                    with open(st.log, 'w') as f:
+                        f.write(json.dumps(ev) + '\n')
+                    if compact_first:
+                        st.run(['compact'])
+                    rc, _, err = st.run(largs, stdin=lstdin)
+                    rc2, out, _ = st.run(['--json', 'show', 'LLLLLL'])
+                    d = json.loads(out) if rc2 == 0 else {}
+                    res.append((rc == 0, d.get('title'), d.get('body'), d.get('state'), d.get('claimed_by')))
+                finally:
+                    st.close()
+            n += 1
+            if res[0] != res[1]:
+                shown[(body, lname)] = res
+    ctx.cov['legacy_untitled_twins'] = n
+    kf = [k for k in driver.load_known() if k.get('id') == 'F5' and k.get('status') == 'open']
+    for (body, lname), res in shown.items():
+        # the recorded finding: a TITLE or BODY edit on an untitled legacy item (derivation happens on every load, compaction freezes it)
+        if kf and lname in ('set body', 'set title') and res[0][0] and res[1][0] and res[0][3:] == res[1][3:]:
+            msg = '%s (F5)' % kf[0]['what'][:200]
+            if msg not in ctx.known:
+                ctx.known.append(msg)
+            continue
+        ctx.violations.append(('monitor', 'legacy untitled item: `%s` after compact behaves differently from without it: %s' % (lname, res),
+                               {'kind': 'twin', 'log': 'new_task LLLLLL title "" body %r' % body, 'later': lname, 'without_compact': res[0], 'after_compact': res[1]}))
 
 
 def waits_for_edges(snap):
